@@ -481,7 +481,7 @@ Qed.
 Lemma SInv_pair s t n : SInv s -> SInv (stp (stp s (Start t n)) (Release t)).
 Proof.
   intros HS. pose proof HS as (Hnp & Hov & Hins & Hen).
-  destruct (start_cases s t n) as [(m & Hp)|[(ok & id & E)|[E|(Hc & E)]]]; try rewrite E; clear E.
+  destruct (start_cases s t n) as [(m & Hp)|[(ok & id & E)|[E|(Hc & E)]]]; try (rewrite E; clear E).
   - exfalso. exact (Hnp t m Hp).
   - rewrite (release_done _ t ok id).
     + eapply SInv_same_log; [exact HS|reflexivity|reflexivity|auto].
